@@ -50,7 +50,7 @@ type FrameBounds struct {
 
 var intPool = []int{0, 1, -1, 2, 3, 7, 42, -42, 1 << 31, -(1 << 31), math.MaxInt64, math.MinInt64, 255, 256}
 var floatPool = []float64{0, math.Copysign(0, -1), 1, -1, 1.5, 0.1, 1e21, 1e-7, 123456789.125, math.MaxFloat64, math.SmallestNonzeroFloat64, 9007199254740993, 1e19, 9.3e18, -2.5e-300}
-var strPool = []string{"", "a", "b", "abc", "A", " ", " a ", "a,b", "\"", "\"\"", "a\"b", "\n", "a\nb", "é", "漢字", "\xff", "\xc3", "0", "1", "true", "null", "NaN", "'", "\\", "\t", "\x00", " ", "x\x01y", "ab", "a\x00", "$", "%", "é́", "\ufffd", "a\ufffdb", "\u2028", "\u2029", "\x7f", "\xed\xa0\x80", "\xf0\x9f\x98\x80", "\xc0\x80"}
+var strPool = []string{"", "a", "b", "abc", "A", " ", " a ", "a,b", "\"", "\"\"", "a\"b", "\n", "a\nb", "é", "漢字", "\xff", "\xc3", "0", "1", "true", "null", "NaN", "'", "\\", "\t", "\x00", " ", "x\x01y", "ab", "a\x00", "$", "%", "é́", "\ufffd", "a\ufffdb", "\u2028", "\u2029", "\x7f", "\xed\xa0\x80", "\xf0\x9f\x98\x80", "\xc0\x80", "\ufeff", "\ufeffa"}
 
 // canonical NaN and the NaN the x86 produces for 0.0/0.0 at run time
 var nanA = math.NaN()
@@ -69,6 +69,29 @@ func drawFloat(t *rapid.T, b FrameBounds) float64 {
 			return math.Inf(-1)
 		}
 		return math.Inf(1)
+	case k == 4 && !b.SmallDomain:
+		// the floats next to a short decimal d x 10^e (rounding-interval
+		// boundaries of shortest-decimal formatting)
+		d := rapid.IntRange(1, 999).Draw(t, "mant")
+		e := rapid.IntRange(-330, 300).Draw(t, "exp10")
+		f, err := strconv.ParseFloat(strconv.Itoa(d)+"e"+strconv.Itoa(e), 64)
+		if err != nil || math.IsInf(f, 0) {
+			f = float64(d)
+		}
+		switch rapid.IntRange(0, 4).Draw(t, "ulps") {
+		case 1:
+			f = math.Nextafter(f, math.Inf(1))
+		case 2:
+			f = math.Nextafter(f, math.Inf(-1))
+		case 3:
+			f = math.Nextafter(math.Nextafter(f, math.Inf(1)), math.Inf(1))
+		case 4:
+			f = math.Nextafter(math.Nextafter(f, math.Inf(-1)), math.Inf(-1))
+		}
+		if rapid.Bool().Draw(t, "neg") {
+			f = -f
+		}
+		return f
 	case k == 3 && !b.SmallDomain:
 		// exact powers of two across the whole exponent range (shortest-decimal
 		// boundary cases), either sign
